@@ -61,6 +61,19 @@ def build():
                  'self.capabilities == (old(self.capabilities) | query_unit.capabilities)',
                  'implies(query_unit.tx_control, self.tx_control)', 'implies(not query_unit.cacheable, not self.cacheable)',
                  'len(self._units) == old(len(self._units)) + 1'])
+
+    # 7. the recovery path of a failed transaction: Compiler._try_compile_rollback builds the ROLLBACK / ROLLBACK TO SAVEPOINT unit by hand (it does not go
+    #    through the dispatcher): the unit and the group it is wrapped in must still declare TRANSACTION
+    w.ext_funcs['edgeql.parse_block'] = dict(params={'source': 'Obj'}, returns='Seq[Ql]', ensures=['len(result) >= 1'], raises={'CompileError': {}})
+    w.ext_methods['Obj.decode'] = dict(params={}, returns='Obj')
+    w.ext_funcs['pg_common.quote_ident'] = dict(params={'s': 'Obj'}, returns='str')
+    w.classes['Ql']['name'] = 'Obj'
+    w.classes['QU'].update({'status': 'bytes', 'sql': 'bytes', 'tx_rollback': 'bool', 'tx_savepoint_rollback': 'bool', 'sp_name': 'Opt[Obj]'})
+    w.contract(COMP, 'Compiler._try_compile_rollback', params={'eql': 'Obj'}, returns='Tuple[QUG,int]',
+        modifies=['QUG.capabilities', 'QUG.cacheable', 'QUG.tx_control', 'QUG.cardinality', 'QUG.out_type_data', 'QUG.out_type_id', 'QUG.in_type_data',
+                  'QUG.in_type_id', 'QUG.in_type_args', 'QUG.in_type_args_real_count', 'QUG.globals', 'QUG.warnings', 'QUG._units', '$alloc'],
+        ensures=['has_flag(result[0].capabilities, Cap.TRANSACTION)'],
+        raises={'TransactionError': {}, 'CompileError': {}})
     w._caps = caps
     return w
 
